@@ -811,6 +811,18 @@ Qed.
 Lemma is_nil_true {A} (l : list A) : is_nil l = true -> l = [].
 Proof. destruct l; [reflexivity|discriminate]. Qed.
 
+Lemma nodupb_NoDup (l : list str) : nodupb streqb l = true -> NoDup l.
+Proof.
+  induction l as [|x r IH]; cbn [nodupb]; [constructor|].
+  intros H. apply andb_prop in H. destruct H as [H1 H2]. constructor; [|now apply IH].
+  intros I. apply negb_true_iff in H1. unfold mem in H1.
+  assert (existsb (fun y => streqb y x) r = true) by (apply existsb_exists; exists x; split; [exact I|apply streqb_refl]).
+  congruence.
+Qed.
+
+Lemma keys_ok_NoDup st : keys_ok st = true -> NoDup (map fst (st_by_name st)).
+Proof. unfold keys_ok. intros H. apply andb_prop in H. now apply nodupb_NoDup. Qed.
+
 Section ObligFacts.
 Variable t : tables.
 Variable lvl : level.
@@ -885,20 +897,23 @@ Proof.
 Qed.
 
 (* ---- complex datatypes seen from a field ---- *)
-Lemma check_struct_spec p :
-  fst (check_struct t lvl p) = [] ->
+Lemma check_struct_spec fields p :
+  fst (check_struct t lvl fields p) = [] ->
   exists f st, struct_field t (fst p) = Ok f /\ f_st f = Some st /\ has_map_st st = true /\ keys_ok st = true /\
-               base t (f_dt f) = false /\ is_varies (f_dt f) = false /\
+               base t (f_dt f) = false /\ is_varies (f_dt f) = false /\ upper (fst p) = fst p /\
+               struct_clean fields st = true /\
                forall e, In e (entries st) -> row_reached (resolve t lvl (PField f)) reserved_Field (entries st) e.
 Proof.
   unfold check_struct. destruct (struct_field t (fst p)) as [f|x]; [|discriminate].
   destruct (f_st f) as [st|] eqn:Hst; [|discriminate].
-  destruct (has_map_st st && keys_ok st && negb (base t (f_dt f)) && negb (is_varies (f_dt f))) eqn:E; [|discriminate].
+  destruct (has_map_st st && keys_ok st && negb (base t (f_dt f)) && negb (is_varies (f_dt f))
+            && streqb (upper (fst p)) (fst p) && struct_clean fields st) eqn:E; [|discriminate].
+  apply andb_prop in E. destruct E as [E SC]. apply andb_prop in E. destruct E as [E U].
   apply andb_prop in E. destruct E as [E V]. apply andb_prop in E. destruct E as [E B].
-  apply andb_prop in E. destruct E as [M K]. apply negb_true_iff in B, V. intros H.
+  apply andb_prop in E. destruct E as [M K]. apply negb_true_iff in B, V. apply streqb_eq in U. intros H.
   exists f, st. split; [reflexivity|]. split; [exact Hst|]. split; [exact M|]. split; [exact K|].
-  split; [exact B|]. split; [exact V|]. intros e I. apply row_check_spec.
-  exact (check_rows_ok _ _ _ _ H e I).
+  split; [exact B|]. split; [exact V|]. split; [exact U|]. split; [exact SC|].
+  intros e I. apply row_check_spec. exact (check_rows_ok _ _ _ _ H e I).
 Qed.
 
 (* ---- component parents ---- *)
@@ -920,23 +935,85 @@ Qed.
 Lemma report_fine_parts :
   report_fine (report t lvl) = true ->
   (forall p, In p (real_segments t) -> fst (fst (check_segment t p)) = []) /\
-  (forall p, In p (t_structs t) -> fst (check_struct t lvl p) = []) /\
+  (forall p, In p (t_structs t) -> fst (check_struct t lvl (map fst (field_parents t)) p) = []) /\
   (forall p, In p (t_components t) -> fst (check_component t lvl p) = []) /\
   (forall p, In p (field_parents t) -> field_parent_ok t p = true) /\
-  paths_clean t = true /\ structs_by_name t = true.
+  paths_clean t = true.
 Proof.
   unfold report_fine, report. cbn [r_bad_segments r_bad_structs r_bad_components r_bad_field_parents r_paths_clean].
   intros H. apply andb_prop in H. destruct H as [H P]. apply andb_prop in H. destruct H as [H F].
   apply andb_prop in H. destruct H as [H C]. apply andb_prop in H. destruct H as [S T].
-  apply is_nil_true in S, T, C, F. apply andb_prop in P. destruct P as [P1 P2].
+  apply is_nil_true in S, T, C, F.
   repeat split; try assumption.
   - intros p I. apply (flat_map_nil _ _ S (check_segment t p)). now apply in_map.
-  - intros p I. apply (flat_map_nil _ _ T (check_struct t lvl p)). now apply in_map.
+  - intros p I. apply (flat_map_nil _ _ T (check_struct t lvl (map fst (field_parents t)) p)).
+    apply in_map_iff. exists p. auto.
   - intros p I. apply (flat_map_nil _ _ C (check_component t lvl p)). now apply in_map.
   - intros p I. destruct (field_parent_ok t p) eqn:E; [reflexivity|]. exfalso.
     assert (In p (filter (fun p => negb (field_parent_ok t p)) (field_parents t))) as I'
         by (apply filter_In; split; [exact I|now rewrite E]).
     apply (in_map fst) in I'. rewrite F in I'. destruct I'.
+Qed.
+
+(* ---- positional hygiene ---- *)
+Lemma path_shaped_comp fields fname a b j :
+  In fname fields -> upper fname = fname -> bsplit US fname = [a; b] ->
+  path_shaped fields (name_idx fname j) = true.
+Proof.
+  intros I U S. unfold path_shaped. rewrite (name_idx_upper_id _ j U), bsplit_name_idx, S. cbn [app].
+  rewrite py_int_nat, (two_parts_join _ _ _ S). cbn [opt_is_some opt_is_none negb andb].
+  now apply smem_true_iff.
+Qed.
+
+Lemma path_shaped_sub fields fname a b j k :
+  In fname fields -> upper fname = fname -> bsplit US fname = [a; b] ->
+  path_shaped fields (name_idx (name_idx fname j) k) = true.
+Proof.
+  intros I U S. unfold path_shaped.
+  rewrite (name_idx_upper_id _ k (name_idx_upper_id _ j U)), !bsplit_name_idx, S. cbn [app].
+  rewrite !py_int_nat, (two_parts_join _ _ _ S). cbn [opt_is_some opt_is_none negb andb].
+  now apply smem_true_iff.
+Qed.
+
+(* the maps of the structure of a field of complex datatype depend on the datatype only *)
+Lemma parse_structure_dt i i' st' :
+  i_dt i = i_dt i' -> parse_structure t (SSeqDt i') = Ok st' ->
+  exists st, parse_structure t (SSeqDt i) = Ok st /\ st_info st = Some i /\
+             st_ordered st = st_ordered st' /\ st_by_name st = st_by_name st' /\ st_by_long st = st_by_long st'.
+Proof.
+  unfold parse_structure, view_of. intros E. rewrite E.
+  destruct (i_dt i') as [d|]; [|discriminate].
+  destruct (slookup d (t_structs t)) as [rows|]; [|discriminate].
+  destruct (parse_children (map (row_view t) rows) [] [] [] [] []) as [[[[o b] l] r]|x]; [|discriminate].
+  intros [= <-]. eexists. split; [reflexivity|]. cbn. auto.
+Qed.
+
+(* under a field whose maps are those of a clean structure, a positional path of a listed field is
+   not itself a name: find_child_reference answers ChildNotFound and the path is decoded *)
+Lemma clean_path_not_found fields f st st0 P :
+  f_st f = Some st -> base t (f_dt f) = false -> is_varies (f_dt f) = false ->
+  st_ordered st = st_ordered st0 -> st_by_name st = st_by_name st0 -> st_by_long st = st_by_long st0 ->
+  has_map_st st0 = true -> struct_clean fields st0 = true ->
+  forallb (fun k => negb (path_shaped fields k)) (map fst (t_components t)) = true ->
+  path_shaped fields P = true -> upper P = P ->
+  field_find_child_reference t f P = Err (HL7 EChildNotFound).
+Proof.
+  intros Hst B V O N L M SC PC PS U.
+  rewrite (field_find_complex t f P B V), Hst. unfold complex_find_child_reference.
+  assert (M' : has_map_st st = true) by (unfold has_map_st in *; now rewrite O).
+  rewrite M', U.
+  unfold struct_clean in SC. apply andb_prop in SC. destruct SC as [SN SL].
+  rewrite forallb_forall in SN, SL, PC.
+  assert (LK : struct_lookup st P = None).
+  { unfold struct_lookup. destruct (by_name st P) as [e|] eqn:X.
+    - exfalso. apply by_name_In in X. rewrite N in X. specialize (SN _ X). cbn [fst] in SN.
+      rewrite PS in SN. discriminate.
+    - destruct (by_long st P) as [e|] eqn:Y; [|reflexivity].
+      exfalso. apply by_long_In in Y. rewrite L in Y. specialize (SL _ Y). cbn [fst] in SL.
+      rewrite PS in SL. discriminate. }
+  rewrite LK. destruct (slookup P (t_components t)) as [r|] eqn:X; [|reflexivity].
+  exfalso. apply slookup_In in X. apply (in_map fst) in X. cbn [fst] in X. specialize (PC _ X).
+  rewrite PS in PC. discriminate.
 Qed.
 
 End ObligFacts.
